@@ -23,23 +23,23 @@ type Violation struct {
 
 // PathResult summarises one explored path.
 type PathResult struct {
-	Status       string // ok | infeasible | inconclusive
-	Reason       string
-	Violations   []Violation
-	Reach        map[string]bool
-	Stubs        map[string]int
-	Notes        map[string]int
-	Tags         []string
-	Queries      int
-	Obligations  int
-	Decisions    int
-	UnknownFeas  int
-	Switches     int
-	AssertsSym   int
-	AssertsConc  int
-	Steps        int
-	Log          []decision
-	Sample       map[string]string
+	Status      string // ok | infeasible | inconclusive
+	Reason      string
+	Violations  []Violation
+	Reach       map[string]bool
+	Stubs       map[string]int
+	Notes       map[string]int
+	Tags        []string
+	Queries     int
+	Obligations int
+	Decisions   int
+	UnknownFeas int
+	Switches    int
+	AssertsSym  int
+	AssertsConc int
+	Steps       int
+	Log         []decision
+	Sample      map[string]string
 }
 
 func (r *PathResult) stub(name string) {
@@ -151,6 +151,17 @@ func (in *Interp) inputBV(name string, w int) BV {
 	return BV{W: uint8(w), T: v}
 }
 
+// inputInt is a symbolic signed 64-bit input with an integer twin (full int64 range).
+func (in *Interp) inputInt(name string) BV {
+	k := in.names["in:"+name]
+	in.names["in:"+name] = k + 1
+	v := in.tb.Var(fmt.Sprintf("in_%s_%d_I", name, k), smt.IntSort)
+	in.input(v)
+	in.assume(in.tb.IntCmp(">=", v, in.tb.IntLit(-1<<63)))
+	in.assume(in.tb.IntCmp("<=", v, in.tb.IntLit(1<<63-1)))
+	return in.mkInt(v, 63)
+}
+
 func (in *Interp) inputBytes(name string, n int) Slice {
 	k := in.names["in:"+name]
 	in.names["in:"+name] = k + 1
@@ -176,8 +187,8 @@ func init() {
 		return mkBV(64, uint64(int64(v)))
 	})
 	reg("Byte", func(in *Interp, fr *frame, a []Value) Value { return in.inputBV(strArg(a[0]), 8) })
-	reg("Int64", func(in *Interp, fr *frame, a []Value) Value { return in.inputBV(strArg(a[0]), 64) })
-	reg("Int", func(in *Interp, fr *frame, a []Value) Value { return in.inputBV(strArg(a[0]), 64) })
+	reg("Int64", func(in *Interp, fr *frame, a []Value) Value { return in.inputInt(strArg(a[0])) })
+	reg("Int", func(in *Interp, fr *frame, a []Value) Value { return in.inputInt(strArg(a[0])) })
 	reg("Bool", func(in *Interp, fr *frame, a []Value) Value {
 		name := strArg(a[0])
 		k := in.names["in:"+name]
@@ -341,9 +352,15 @@ func init() {
 		return mkBV(64, uint64(len(in.m.rndDraws[k])))
 	})
 	reg("SealCount", func(in *Interp, fr *frame, a []Value) Value { return mkBV(64, uint64(len(in.m.seals))) })
-	reg("SealKey", func(in *Interp, fr *frame, a []Value) Value { return bvSlice(in.m.seals[in.concInt(a[0], "seal index")].key) })
-	reg("SealNonce", func(in *Interp, fr *frame, a []Value) Value { return bvSlice(in.m.seals[in.concInt(a[0], "seal index")].nonce) })
-	reg("SealPlain", func(in *Interp, fr *frame, a []Value) Value { return bvSlice(in.m.seals[in.concInt(a[0], "seal index")].pt) })
+	reg("SealKey", func(in *Interp, fr *frame, a []Value) Value {
+		return bvSlice(in.m.seals[in.concInt(a[0], "seal index")].key)
+	})
+	reg("SealNonce", func(in *Interp, fr *frame, a []Value) Value {
+		return bvSlice(in.m.seals[in.concInt(a[0], "seal index")].nonce)
+	})
+	reg("SealPlain", func(in *Interp, fr *frame, a []Value) Value {
+		return bvSlice(in.m.seals[in.concInt(a[0], "seal index")].pt)
+	})
 	reg("SealOut", func(in *Interp, fr *frame, a []Value) Value {
 		e := in.m.seals[in.concInt(a[0], "seal index")]
 		return bvSlice(append(append([]BV{}, e.ct...), e.tag...))
